@@ -7,6 +7,7 @@ import Blue.Proofs.WcqV
 import Blue.Proofs.WcqWake
 import Blue.Proofs.WcqWakeMutants
 import Blue.Proofs.WcqWakeProgress
+import Blue.Proofs.WcqOnce
 import Blue.Proofs.ConstsTieC18
 /-! # Property C18 — the coalescing queue runs each request once, in order, returning its own
     result; the wait list has exactly one head; the LRU cache is a sequential LRU map with exact
@@ -58,8 +59,10 @@ theorem insert_within_capacity {c : Cache K V} (h : Inv sz c) (k : K) (v : V) :
 theorem lookup_hit (c : Cache K V) (k : K) (v : V) (h : (k, v) ∈ c.entries)
     (hn : (c.entries.map (·.1)).Nodup) : (lookup c k).1 = some v := Blue.Lru.lookup_hit c k v h hn
 
-/-- the cache is a map: `insert_helper` (both inserts before eviction) is a map update, `lookup`
-    reads the map and leaves it unchanged, `remove` deletes the key -/
+/-- the cache is a map: `insert_helper` (the common first half of both inserts, before eviction)
+    is a map update, `lookup` reads the map and leaves it unchanged, `remove` deletes the key (the
+    model's `remove` is a filter by the key, so its conjunct is close to its definition; what an
+    evicting `insert` then drops is `lru_recency`: a suffix of the recency list) -/
 theorem lru_map_semantics (c : Cache K V) (k k' : K) (v : V) :
     (find k' (insertHelper sz c k v).entries = if k' = k then some v else find k' c.entries)
     ∧ (lookup c k).1 = find k c.entries
@@ -118,7 +121,9 @@ theorem waitlist_inv_run_source (ops : List Op) :
 theorem head_is_oldest {s : St} (h : Inv s) (hne : s.live ≠ []) :
     s.head ∈ s.live ∧ ∀ j ∈ s.live, s.head ≤ j := Blue.WaitList.head_is_oldest h hne
 
-/-- exactly one linked waiter is head, in every reachable state -/
+/-- exactly one linked waiter is head, in every reachable state.  (The content is the first two
+    conjuncts — the head is a live guard and the oldest, from the invariant; the uniqueness
+    conjunct holds by the definition of `isHead j := j == head`.) -/
 theorem exactly_one_head (n : Nat) (hn : 0 < n) (ops : List Op)
     (hne : (ops.foldl step (init n)).live ≠ []) :
     ∃ j ∈ (ops.foldl step (init n)).live, isHead (ops.foldl step (init n)) j = true
@@ -172,8 +177,10 @@ end waitlist
 /-! ## coalescing queue: safety for every interleaving -/
 section wcq
 
-/-- the core is given each caller's input exactly once, in the order the callers linked
-    (batches are contiguous runs) — core answering input `x` with `out x` -/
+/-- the core is given inputs in the order the callers linked, none twice, none skipped (batches
+    are contiguous runs): the log is `0, 1, …, m-1` — core answering input `x` with `out x`.  This
+    is the *at most once, in order* half; that the input of every call that has returned is among
+    them is `returned_in_log` -/
 theorem core_sees_inputs_once_in_order (out : Nat → Nat) (evs : List Blue.Wcq.Ev) :
     ∃ m, (evs.foldl (Blue.Wcq.step out) Blue.Wcq.init).log = List.range m :=
   Blue.Wcq.core_sees_inputs_once_in_order out evs
@@ -183,9 +190,34 @@ theorem own_result (out : Nat → Nat) (evs : List Blue.Wcq.Ev) (i : Nat) (e : B
     (he : (evs.foldl (Blue.Wcq.step out) Blue.Wcq.init).ents[i]? = some e) (hr : e.ret = some o) :
     o = out i := Blue.Wcq.own_result out evs i e o he hr
 
-/-- both `panic!`s of `do_work` and its "stolen at head of line" branch are unreachable -/
+/-- **exactly once, the other half**: a call that has returned had its input given to the core … -/
+theorem returned_in_log (out : Nat → Nat) (evs : List Blue.Wcq.Ev) (i : Nat) (e : Blue.Wcq.Ent) (o : Nat)
+    (he : (evs.foldl (Blue.Wcq.step out) Blue.Wcq.init).ents[i]? = some e) (hr : e.ret = some o) :
+    i < (evs.foldl (Blue.Wcq.step out) Blue.Wcq.init).log.length :=
+  Blue.Wcq.returned_in_log out evs i e o he hr
+
+/-- … so the core's log holds it exactly once -/
+theorem returned_input_logged_once (out : Nat → Nat) (evs : List Blue.Wcq.Ev) (i : Nat) (e : Blue.Wcq.Ent)
+    (o : Nat) (he : (evs.foldl (Blue.Wcq.step out) Blue.Wcq.init).ents[i]? = some e) (hr : e.ret = some o) :
+    (evs.foldl (Blue.Wcq.step out) Blue.Wcq.init).log.count i = 1 :=
+  Blue.Wcq.returned_input_logged_once out evs i e o he hr
+
+/-- the two `panic!`s of `do_work` that the model flags (`head should never witness stolen or
+    output`, `Thread gave everyone except itself an output`) are unreachable — for cores that
+    yield one output per batched input (the model's `deliver` events hand every member of the batch
+    its output before `finish`; a core that yields fewer makes the real leader, or the first
+    unserved member, panic: the theorem is relative to that contract).  The third `panic!`,
+    "stolen at head of line", is a branch the model's `lead` step passes through unchanged; that
+    it is never reached is `no_stolen_when_idle` -/
 theorem never_panics (out : Nat → Nat) (evs : List Blue.Wcq.Ev) :
     (evs.foldl (Blue.Wcq.step out) Blue.Wcq.init).panicked = false := Blue.Wcq.never_panics out evs
+
+/-- **"stolen at head of line" is unreachable**: while nobody is working no caller at all is in the
+    `stolen` state, so the caller that finds itself head with `doing_work = false` is not -/
+theorem no_stolen_when_idle (out : Nat → Nat) (evs : List Blue.Wcq.Ev)
+    (hd : (evs.foldl (Blue.Wcq.step out) Blue.Wcq.init).doingWork = false) (i : Nat) (e : Blue.Wcq.Ent)
+    (he : (evs.foldl (Blue.Wcq.step out) Blue.Wcq.init).ents[i]? = some e) : e.st ≠ .stolen :=
+  Blue.Wcq.no_stolen_when_idle out evs hd i e he
 
 /-- the same three with the core's answers arbitrary (carried by the `deliver` events; this is
     the model the recorded runs of the real queue are replayed through) -/
@@ -201,6 +233,21 @@ theorem own_result_v (evs : List Blue.WcqV.Ev) (i : Nat) (e : Blue.WcqV.Ent) (o 
 theorem never_panics_v (evs : List Blue.WcqV.Ev) :
     (evs.foldl Blue.WcqV.step Blue.WcqV.init).panicked = false := Blue.WcqV.never_panics evs
 
+theorem returned_in_log_v (evs : List Blue.WcqV.Ev) (i : Nat) (e : Blue.WcqV.Ent) (o : Nat)
+    (he : (evs.foldl Blue.WcqV.step Blue.WcqV.init).ents[i]? = some e) (hr : e.ret = some o) :
+    i < (evs.foldl Blue.WcqV.step Blue.WcqV.init).log.length :=
+  Blue.WcqV.returned_in_log evs i e o he hr
+
+theorem returned_input_logged_once_v (evs : List Blue.WcqV.Ev) (i : Nat) (e : Blue.WcqV.Ent) (o : Nat)
+    (he : (evs.foldl Blue.WcqV.step Blue.WcqV.init).ents[i]? = some e) (hr : e.ret = some o) :
+    (evs.foldl Blue.WcqV.step Blue.WcqV.init).log.count i = 1 :=
+  Blue.WcqV.returned_input_logged_once evs i e o he hr
+
+theorem no_stolen_when_idle_v (evs : List Blue.WcqV.Ev)
+    (hd : (evs.foldl Blue.WcqV.step Blue.WcqV.init).doingWork = false) (i : Nat) (e : Blue.WcqV.Ent)
+    (he : (evs.foldl Blue.WcqV.step Blue.WcqV.init).ents[i]? = some e) : e.st ≠ .stolen :=
+  Blue.WcqV.no_stolen_when_idle evs hd i e he
+
 /-! non-vacuity: three callers, a batch of two, the follower leaves before the leader, the third
     leads alone; every call has returned (the hypotheses of `own_result` are met by all three) -/
 example :
@@ -212,6 +259,15 @@ example :
     let s := [Blue.WcqV.Ev.link, .link, .link, .lead 0 2, .deliver 0 77, .deliver 0 77, .observe 1, .finish 0,
               .lead 2 1, .deliver 2 99, .finish 2].foldl Blue.WcqV.step Blue.WcqV.init
     s.log = [0, 1, 2] ∧ s.ents.map (·.ret) = [some 77, some 77, some 99] ∧ s.doingWork = false := by
+  decide
+/-- non-vacuity of `no_stolen_when_idle`: mid-batch (`doingWork = true`) callers 0, 1 ARE stolen;
+    after the leader has finished (`doingWork = false`, caller 2 still waiting with its input)
+    nobody is -/
+example :
+    let mid := [Blue.Wcq.Ev.link, .link, .link, .lead 0 2].foldl (Blue.Wcq.step (· * 10)) Blue.Wcq.init
+    let s := [Blue.Wcq.Ev.deliver 0, .deliver 0, .finish 0].foldl (Blue.Wcq.step (· * 10)) mid
+    (mid.doingWork, mid.ents.map (·.st)) = (true, [.stolen, .stolen, .inp])
+      ∧ (s.doingWork, s.ents.map (·.st)) = (false, [.outp 0, .outp 10, .inp]) := by
   decide
 end wcq
 
@@ -226,6 +282,14 @@ open Blue.WcqWake
 theorem never_stuck (evs : List Ev) : stuck (evs.foldl step init) = false :=
   Blue.WcqWake.never_stuck evs
 
+/-- "stolen at head of line" in the wake-up model: while nobody is working no entry is `stolen`, so
+    the branch of `check` that the model passes through unchanged (head, `doing_work = false`, state
+    `stolen`) is never taken -/
+theorem stolen_head_unreachable (evs : List Ev) (e : Ent)
+    (hd : (evs.foldl step init).doingWork = false)
+    (he : (evs.foldl step init).ents[headIdx (evs.foldl step init).ents]? = some e) : e.st ≠ .stolen :=
+  Blue.WcqWake.stolen_head_unreachable evs e hd he
+
 /-- no call blocks forever: in every reachable state, (1) every run of steps of the callers and
     the leader (everything except new arrivals and spurious wake-ups) is finite — each such step
     strictly decreases the lexicographic measure (linked callers; leader phase + undelivered outputs
@@ -235,8 +299,10 @@ theorem never_stuck (evs : List Ev) : stuck (evs.foldl step init) = false :=
 
     `_partial`: what is missing for the full statement is the interleaving with an *unbounded*
     stream of new arrivals and spurious wake-ups (both only add bounded work: FIFO order means a
-    call is overtaken by nobody, DESIGN C.38) and scheduler fairness, which stays an assumption; a
-    core that yields fewer outputs than inputs leaves stolen callers waiting by design. -/
+    call is overtaken by nobody, DESIGN C.38) and scheduler fairness, which stays an assumption.
+    Cores are assumed to yield one output per batched input: with fewer, the real `do_work` panics
+    (the leader: "Thread gave everyone except itself an output"; else the first unserved member,
+    once head: "stolen at head of line") — it does not leave callers waiting. -/
 theorem every_call_returns_partial (evs : List Ev) :
     Acc ProgressStep (evs.foldl step init)
       ∧ ((evs.foldl step init).ents.any (·.linked) = true →
@@ -293,10 +359,17 @@ end Blue.Props.C18
 #print axioms Blue.Props.C18.slot_reuse_is_safe
 #print axioms Blue.Props.C18.core_sees_inputs_once_in_order
 #print axioms Blue.Props.C18.own_result
+#print axioms Blue.Props.C18.returned_in_log
+#print axioms Blue.Props.C18.returned_input_logged_once
 #print axioms Blue.Props.C18.never_panics
+#print axioms Blue.Props.C18.no_stolen_when_idle
 #print axioms Blue.Props.C18.core_sees_inputs_once_in_order_v
 #print axioms Blue.Props.C18.own_result_v
 #print axioms Blue.Props.C18.never_panics_v
+#print axioms Blue.Props.C18.returned_in_log_v
+#print axioms Blue.Props.C18.returned_input_logged_once_v
+#print axioms Blue.Props.C18.no_stolen_when_idle_v
+#print axioms Blue.Props.C18.stolen_head_unreachable
 #print axioms Blue.Props.C18.never_stuck
 #print axioms Blue.Props.C18.every_call_returns_partial
 #print axioms Blue.Props.C18.leader_forgets_notify_head_stuck
